@@ -327,3 +327,103 @@ Proof.
 Qed.
 
 End ArmsF.
+
+(* ================= the class ================= *)
+(* recogniser on the Standard's side: the base is a file URL with a host (true of every parse result), its path is
+   not empty and does not END in a normalized drive letter; the cleaned reference has no scheme, does not start with
+   '/', '\', '?', '#' nor with a Windows drive letter; the path loop on it, started on the base path without its last
+   segment, stays inside fpath_ok (has_host = true: no ".." on a drive-letter-shaped last segment, no drive letter
+   becoming the first segment, no first segment going on after a drive-letter prefix) and the collapse of leading
+   slashes leaves the resulting list alone *)
+Definition file_base_ok (sb : spec_url) : bool :=
+  negb (has_opaque_path sb) && list_eqb (su_scheme sb) str_file && opt_is_some (su_host sb)
+  && negb (is_nil (Whatwg.path_segments sb)) && last_not_nwdl (Whatwg.path_segments sb).
+
+Definition in_class_file_rel_path (sb : spec_url) (input : list N) : bool :=
+  file_base_ok sb
+  && match spec_scheme (spec_clean input) with None => true | Some _ => false end
+  && match spec_clean input with
+     | c :: t => negb (is_sl c) && negb (c =? 63) && negb (c =? 35)
+                 && negb (starts_with_windows_drive_letter (c :: t))
+                 && fpath_ok true (c :: t) (removelast (Whatwg.path_segments sb)) []
+                 && strip_stable (fst (spath_f (c :: t) (removelast (Whatwg.path_segments sb)) []))
+     | [] => false
+     end.
+
+Lemma file_base_ok_facts sb : file_base_ok sb = true ->
+  has_opaque_path sb = false /\ su_scheme sb = str_file /\ (exists h, su_host sb = Some h)
+  /\ Whatwg.path_segments sb <> [] /\ last_not_nwdl (Whatwg.path_segments sb) = true.
+Proof.
+  unfold file_base_ok. intros H. apply andb_true_iff in H. destruct H as [H H5]. apply andb_true_iff in H. destruct H as [H H4].
+  apply andb_true_iff in H. destruct H as [H H3]. apply andb_true_iff in H. destruct H as [H1 H2].
+  apply negb_true_iff in H1. apply list_eqb_spec in H2.
+  repeat split; try assumption.
+  - destruct (su_host sb) as [h|]; [exists h; reflexivity | discriminate H3].
+  - intros E. rewrite E in H4. discriminate H4.
+Qed.
+
+Section RelClassF.
+Variable dbg : bool.
+Variable hp hpo : list N -> result host.
+Variable hd : host -> list N.
+Variable shp : bool -> list N -> option spec_host.
+Variable shs : spec_host -> list N.
+
+Theorem class_file_rel_path input b sb : usv_list input -> related dbg shs b sb ->
+  spec_base_ok sb = true -> in_class_file_rel_path sb input = true ->
+  exists su, spec_basic_url_parse shp input (Some sb) = BDone su /\ spec_base_ok su = true
+    /\ agree_rel_strict dbg shs (parse_url dbg hp hpo hd None (Some b) input) (BDone su).
+Proof.
+  intros Hu R Hbok Hc. unfold in_class_file_rel_path in Hc.
+  apply andb_true_iff in Hbok. destruct Hbok as [Hcan HnsP].
+  apply andb_true_iff in Hc. destruct Hc as [Hc Hok]. apply andb_true_iff in Hc. destruct Hc as [Hb Hsch].
+  destruct (file_base_ok_facts sb Hb) as (Hop & Hsf & (h & Eh) & HneP & Hlast).
+  assert (list_eqb (su_scheme sb) str_file = true) as Hf by (apply list_eqb_spec; exact Hsf).
+  assert (spec_scheme (spec_clean input) = None) as Hs by (destruct (spec_scheme (spec_clean input)); [discriminate | reflexivity]).
+  destruct (spec_clean input) as [|c t] eqn:Ecl; [discriminate Hok|].
+  apply andb_true_iff in Hok. destruct Hok as [Hok Hstab]. apply andb_true_iff in Hok. destruct Hok as [Hok Hfok].
+  apply andb_true_iff in Hok. destruct Hok as [Hok Hw]. apply andb_true_iff in Hok. destruct Hok as [Hok E35].
+  apply andb_true_iff in Hok. destruct Hok as [Esl E63]. apply negb_true_iff in Esl, E63, E35, Hw.
+  set (P := Whatwg.path_segments sb) in *.
+  set (su := file_tail (fkeep sb (removelast P)) (spath_f (c :: t) (removelast P) [])).
+  exists su.
+  assert (spec_basic_url_parse shp input (Some sb) = BDone su) as HS.
+  { apply spec_parse_of_runs. rewrite Ecl.
+    exact (runs_file_rel_path shp (c :: t) sb Hop Hf c t eq_refl Hs Esl E63 E35 Hw Hlast). }
+  split; [exact HS|].
+  (* the model *)
+  pose proof (rel_wf _ _ _ _ R) as W. pose proof (path_start_le_len b W) as Lps.
+  set (pre := nfirstn (path_start b) (ser b)).
+  assert (nlen pre = path_start b) as Lpre by (apply nlen_nfirstn; exact Lps).
+  destruct (related_pre dbg shs b sb R) as [Ebq _]. fold pre in Ebq.
+  assert (serialize_path sb = flat P) as EPth.
+  { unfold serialize_path, P, Whatwg.path_segments, flat. unfold has_opaque_path in Hop. destruct (su_path sb); [discriminate Hop | reflexivity]. }
+  rewrite EPth in Ebq.
+  assert (forallb C06_WFI.no_qh (flat P) = true) as HqhP.
+  { pose proof (qf_facts_of b W) as (_ & _ & _ & Q4 & _).
+    pose proof (before_query_path_end b W) as E. rewrite Ebq in E.
+    destruct (wf_ps_le_path_end b W) as [L1 L2].
+    assert (nfirstn (path_end b - path_start b) (nskipn (path_start b) (ser b)) = flat P) as EE.
+    { rewrite <- (nfirstn_nskipn (path_start b) (nfirstn (path_end b) (ser b))) in E.
+      rewrite nfirstn_nfirstn in E by lia. fold pre in E. apply app_inv_head in E. rewrite E.
+      unfold nskipn, nfirstn. rewrite N2Nat.inj_sub. rewrite firstn_skipn_comm.
+      replace (N.to_nat (path_start b) + (N.to_nat (path_end b) - N.to_nat (path_start b)))%nat with (N.to_nat (path_end b)) by lia.
+      reflexivity. }
+    rewrite EE in Q4. exact Q4. }
+  rewrite spec_clean_is_ntnl_trim in Ecl. set (l0 := input_new_trim_c0 input) in *.
+  assert (usv_list l0) as Hul0 by (apply usv_trim; exact Hu).
+  destruct (inp_next_some l0 c t Ecl) as (r1 & En & Er1 & _).
+  assert (scheme_type_of (b_scheme b) = STFile) as Hstb by (rewrite (rel_sch _ _ _ _ R), Hsf; reflexivity).
+  assert (parse_url dbg hp hpo hd None (Some b) input = arm_expr_f dbg b (Bs pre (removelast P)) l0) as Epu.
+  { rewrite (parse_url_file_rel dbg hp hpo hd b input c t (related_not_cbb dbg shs b sb R Hop) Hstb Ecl Hs E35).
+    fold l0. unfold parse_file, inp_split_first. rewrite En. cbv iota beta.
+    rewrite is_sl_model, Esl, E63, E35. rewrite swdl_segment_spec, Ecl, Hw. cbn [negb].
+    rewrite Ebq, <- Lpre.
+    rewrite (shorten_path_segments_f pre P HnsP HneP Hlast). cbn [pbind]. unfold arm_expr_f. rewrite <- Lpre. reflexivity. }
+  rewrite <- Ecl in Hfok, Hstab.
+  destruct (path_arm_related_f dbg shs b sb h (removelast P) l0 R Hop Hsf Eh Hul0
+              (no_slash_removelast P HnsP) (removelast_prefix_no_qh_s P HqhP) Hfok Hstab) as (u & HO & Ru & Hbo).
+  fold pre in HO. rewrite Ecl in Ru, Hbo. fold su in Ru, Hbo. split; [exact Hbo|]. rewrite Epu. exact (oob_agree dbg shs _ u _ HO Ru).
+Qed.
+
+End RelClassF.
